@@ -668,7 +668,7 @@ func manyStalled(x *explore.X) {
 
 func TestC15(t *testing.T) {
 	s := explore.NewSuite(t, "C15", "model_checking",
-		"listener stacking(5: plain, TLS, PROXY protocol, PROXY protocol + TLS, MITM inside CONNECT) x every stall point of that stacking (no byte, partial PROXY header at 3 offsets, partial TLS hello at 2 offsets, after CONNECT, partial request head at 3 offsets, between requests, origin slow) [full product] x number of simultaneously stalled peers {1,2,8} x for stalls inside a request head: complete exchanges before it {0,1} x quiet period before its first byte {0, read-header-timeout+1s, idle-timeout-1ms} x {stall for good, complete the head 1 ms before the limit and be served}; for stalls inside the TLS hello of an intercepted CONNECT: quiet period between the 200 and the first hello byte {0, tls-handshake-timeout+1s, idle-timeout-1ms} [bounded: quick <=2 deviations, thorough full product]; thorough additionally stalls at EVERY byte offset of the PROXY header, of the TLS hello prefix and of the request head; all on the virtual clock with distinct limits (idle 30 s, read-header 7 s, TLS handshake 5 s, PROXY header 3 s); states = quiescent states at t0, limit-1ms, limit+1ms; oracle: probe client connecting at the same virtual instant is served in 0 s, stalled sockets open at limit-1ms and closed at limit+1ms, never closed while only the origin is slow (10 virtual minutes), the late answer is delivered; plus (no-proxy-header-limit) --proxy-protocol-read-header-timeout 0 x {PROXY protocol, PROXY protocol + TLS} x 4 cut points of the header x pause {4 s, 6 s, 1 min, 10 min}: the peer is served; plus later-phase stalls preceded by a PROXY header completed 1 ms inside its limit, and head stalls whose first bytes arrive in the segment of the previous request; (many-stalled-peers-on-a-rate-limited-listener, round 9) limits {write, read, both: 16 KiB/s} x 1100 connections stalled at {no byte, partial request head, idle between requests}: a well-behaved client (and one of the idle connections sending its next request) is served without any virtual time passing")
+		"listener stacking(5: plain, TLS, PROXY protocol, PROXY protocol + TLS, MITM inside CONNECT) x every stall point of that stacking (no byte, partial PROXY header at 3 offsets, partial TLS hello at 2 offsets, after CONNECT, partial request head at 3 offsets, between requests, origin slow) [full product] x number of simultaneously stalled peers {1,2,8} x for stalls inside a request head: complete exchanges before it {0,1} x quiet period before its first byte {0, read-header-timeout+1s, idle-timeout-1ms} x {stall for good, complete the head 1 ms before the limit and be served}; for stalls inside the TLS hello of an intercepted CONNECT: quiet period between the 200 and the first hello byte {0, tls-handshake-timeout+1s, idle-timeout-1ms} [bounded: quick <=2 deviations, thorough full product]; thorough additionally stalls at EVERY byte offset of the PROXY header, of the TLS hello prefix and of the request head; all on the virtual clock with distinct limits (idle 30 s, read-header 7 s, TLS handshake 5 s, PROXY header 3 s); states = quiescent states at t0, limit-1ms, limit+1ms; oracle: probe client connecting at the same virtual instant is served in 0 s, stalled sockets open at limit-1ms and closed at limit+1ms, never closed while only the origin is slow (10 virtual minutes), the late answer is delivered; plus (no-proxy-header-limit) --proxy-protocol-read-header-timeout 0 x {PROXY protocol, PROXY protocol + TLS} x 4 cut points of the header x pause {4 s, 6 s, 1 min, 10 min}: the peer is served; plus later-phase stalls preceded by a PROXY header completed 1 ms inside its limit, and head stalls whose first bytes arrive in the segment of the previous request; (many-stalled-peers-on-a-rate-limited-listener, round 9) limits {write, read, both: 16 KiB/s} x 1100 connections stalled at {no byte, partial request head, idle between requests}: a well-behaved client (and one of the idle connections sending its next request) is served without any virtual time passing; the four limits reach the configuration as struct fields or as command-line flags through the plumbing of package bind (choice)")
 	s.Assume = []string{"testing/synctest virtual clock: time advances only when every goroutine of the proxy is durably blocked", "sync.Mutex held across timed waits in proxy.go and proxyproto/net.go replaced by a channel mutex at build time (vsync) so the virtual clock can advance"}
 	s.Add(explore.Scenario{Name: "stalls", Remote: true, MaxDev: map[string]int{"quick": 2, "thorough": 4},
 		Run: func(x *explore.X) { world.Run(t, x, func() { scenario(x, false) }) }})
